@@ -499,3 +499,105 @@ fn run_timer_case_sync(case: &Val) -> Val {
 fn verif_timer_cases() {
     val::run_cases(run_timer_case_sync);
 }
+
+// ---------------------------------------------------------------- C16
+// case = [local caps, remote caps, send_max, families]:
+// negotiate_gr / negotiate_llgr of a session in both directions, and for each
+// family the driver's effective send-max (from the FSM's SessionEstablished)
+// next to the codec's addpath_tx.
+fn gr_val(g: &Option<NegotiatedGr>) -> Val {
+    match g {
+        Some(g) => Val::L(vec![
+            Val::L(g.families.iter().map(fam_val).collect()),
+            Val::n(g.restart_time.as_secs()),
+            Val::b(g.notification_enabled),
+        ]),
+        None => Val::L(vec![]),
+    }
+}
+
+fn llgr_val(g: &Option<NegotiatedLlgr>) -> Val {
+    match g {
+        Some(g) => Val::L(vec![Val::L(
+            g.families
+                .iter()
+                .map(|(f, d)| Val::L(vec![fam_val(f), Val::n(d.as_secs())]))
+                .collect(),
+        )]),
+        None => Val::L(vec![]),
+    }
+}
+
+fn session_with_caps(local: &[bgp::Capability]) -> PeerSession {
+    let fsm = crate::fsm::PeerFsm::new(1, 65000, local.to_vec(), 90, 0, FnvHashMap::default());
+    let context = hx_context(fsm);
+    let tables: TableHandle = Arc::new(TableManager::new(1));
+    let mut s = PeerSession::new_for_test("127.0.0.9".parse().unwrap(), context, tables);
+    s.local_cap = local.to_vec();
+    s
+}
+
+fn emax_val(lc: &[bgp::Capability], rc: &[bgp::Capability], smax: &Val, fams: &Val) -> Val {
+    let mut sm: FnvHashMap<Family, usize> = FnvHashMap::default();
+    for p in smax.list() {
+        sm.insert(fam_of(p.at(0)), p.at(1).usize());
+    }
+    let mut fsm = crate::fsm::PeerFsm::new(200, 65000, lc.to_vec(), 90, 0, sm);
+    let open = bgp::Message::Open(bgp::Open {
+        as_number: 65001,
+        router_id: 100,
+        holdtime: HoldTime::new(30).unwrap(),
+        capability: rc.to_vec(),
+    });
+    fsm.process(Role::Active, Input::Connected(false));
+    fsm.process(Role::Active, Input::MessageReceived(open));
+    let outs = fsm.process(Role::Active, Input::MessageReceived(bgp::Message::Keepalive));
+    let mut em: FnvHashMap<Family, usize> = FnvHashMap::default();
+    for o in outs {
+        if let crate::fsm::PeerFsmOutput::Connection(
+            _,
+            crate::fsm::Output::SessionEstablished { effective_max, .. },
+        ) = o
+        {
+            em = effective_max;
+        }
+    }
+    // PeerSession::effective_max(family)
+    let mut s = session_with_caps(lc);
+    s.effective_max = em;
+    let codec = bgp::PeerCodec::negotiate(lc, rc);
+    Val::L(
+        fams.list()
+            .iter()
+            .map(|fv| {
+                let f = fam_of(fv);
+                Val::L(vec![
+                    fam_val(&f),
+                    Val::us(s.effective_max(f)),
+                    Val::b(codec.family_state(f).is_some_and(|st| st.addpath_tx)),
+                ])
+            })
+            .collect(),
+    )
+}
+
+fn run_neg_case(case: &Val) -> Val {
+    let _g = rt().enter();
+    let l = case.list();
+    let lc = caps_of(&l[0]);
+    let rc = caps_of(&l[1]);
+    let a = session_with_caps(&lc);
+    let b = session_with_caps(&rc);
+    Val::L(vec![
+        gr_val(&a.negotiate_gr(&rc)),
+        llgr_val(&a.negotiate_llgr(&rc)),
+        gr_val(&b.negotiate_gr(&lc)),
+        llgr_val(&b.negotiate_llgr(&lc)),
+        emax_val(&lc, &rc, &l[2], &l[3]),
+    ])
+}
+
+#[test]
+fn verif_neg_cases() {
+    val::run_cases(run_neg_case);
+}
